@@ -39,8 +39,15 @@ def r1(ctx):
     ctx.check(ok, "C20.R1", "structured formulas differentiate leaf-wise", g.where, ctx.construct(g, text="leaf-wise"), "StructuredFormula.differentiate must map differentiate over the leaves")
     h = P.method("formulaic.model_spec.ModelSpec", "differentiate", inherited=False)
     r = returns_of(h.node)
-    ok = bool(r) and norm(r[0].value) == "self.update(formula=self.formula.differentiate(*wrt, use_sympy=use_sympy))"
-    ctx.check(ok, "C20.R1", "a model spec differentiates its formula and keeps everything else", h.where, ctx.construct(h, text="spec"), f"returns `{norm(r[0].value) if r else None}`")
+    c = r[0].value if r else None
+    ok = isinstance(c, ast.Call) and norm(c.func) == "self.update" and kwarg(c, "formula") is not None \
+        and norm(kwarg(c, "formula")) == "self.formula.differentiate(*wrt, use_sympy=use_sympy)"
+    ctx.check(ok, "C20.R1", "a model spec differentiates its own formula with the same variables", h.where, ctx.construct(h, text="spec"), f"returns `{norm(c) if c is not None else None}`")
+    st = kwarg(c, "structure") if isinstance(c, ast.Call) else None
+    ctx.check(st is not None and is_const(st, None), "C20.R1", "the differentiated spec does not keep the structure recorded for the original terms", h.where,
+              ctx.construct(h, text="spec structure"),
+              "ModelSpec.differentiate must reset `structure` (it lists the original formula's terms and columns): a materialised spec's derivative otherwise "
+              "fails (KeyError) or replays the original columns when materialised")
     k = P.method("formulaic.model_spec.ModelSpecs", "differentiate", inherited=False)
     t = norm(k.node)
     ok = "self._map(" in t and ".differentiate(*wrt, use_sympy=use_sympy)" in t
